@@ -5,6 +5,7 @@ import re
 
 from engine import (cmatch, cpath, expr_s, norm_learn, run_monitor, path_to, describe_path, strip_ids, OKV, ERRV, contains, finals)
 from helpers import *
+from engine import Unresolved
 import c09
 import c16
 
@@ -64,8 +65,10 @@ def encode_tables(ctx, key):
                 seq = seq + (("enc", w, ty_of_codec_call(t)),)
             elif nm == "write_checksum":
                 seq = seq + (("crc", "", ""),)
+        if len(seq) > 48:
+            raise Unresolved("the encoder's event sequence does not end (fields written in a loop): the field table cannot be read off")
         return (tag, seq)
-    seen = run_monitor(P, (None, ()), step)
+    seen = run_monitor(P, (None, ()), step, max_states=400000)
     out = {}
     for (pi, ms0, ms) in finals(P, seen, step):
         if P.gnode(pi) in g.exits and not exit_is_err(P, pi):
@@ -92,6 +95,8 @@ def decode_tables(ctx, key):
                 seq = seq + (("dec", ty_of_codec_call(t), n),)
             elif nm == "verify_checksum":
                 seq = seq + (("crc", "", n),)
+        if len(seq) > 48:
+            raise Unresolved("the decoder's event sequence does not end (fields read in a loop): the field table cannot be read off")
         for s in g.stmts(n):
             if s["k"] == "assign" and s["rv"]["k"] == "agg" and s["rv"].get("ak") == "adt" and \
                     re.search(r"wal_record::WALRecord$|raft_log_state::RaftLogState$", s["rv"]["adt"]):
